@@ -24,6 +24,9 @@ BA = "hta.analyzers.breakdown_analysis"
 
 
 def run(db, chk) -> None:
+    from ..specs.discipline import check_stateless
+    check_stateless(db, chk, "C04.R-stateless", ['hta.analyzers.breakdown_analysis'])      # the result is a function of the arguments: no state kept between calls, caller's Trace untouched
+    chk.floor("C04.R-stateless", 4)
     check_merge(db, chk, "C04.R1-interval-union")
     chk.floor("C04.R1-interval-union", 8)
     m = db.mod(BA)
